@@ -82,6 +82,9 @@ pub fn soup_tokens() -> Vec<String> {
     .iter()
     .map(|s| s.to_string())
     .collect();
+    for t in ["12", "42", "255", "256", "65536", "1048576", "2097151", "2097152", "20240101", "2147483648", "4294967296", "9007199254740992"] {
+        v.push(t.to_string());
+    }
     v.push(m.to_string());
     v.push((m + 1).to_string());
     v.push((m - 1).to_string());
